@@ -1,11 +1,203 @@
 /-
-  C03 — property theorems only (placeholder until the refinement proof lands).
+  C03 — loader discipline and resolution invariants (resolve.go).
+  Property theorems only; helper lemmas: JSV/Proofs/ResInv.lean (invariants threaded through
+  resolveDoc / resolveRefsLoop / resolveRef by open recursion + induction on fuel), ResUri.lean.
 -/
-import JSV.Model.Validate
+import JSV.Proofs.ResInv
+import JSV.Proofs.ResUri
 namespace JSV.C03
-open JSV Go
+open JSV Go Go.RInv
 
-theorem validateFuel_zero (env : VEnv) (stack : List NodeId) (i : GoVal) (s : NodeId) :
-    validateFuel env 0 stack i s = .fuel := rfl
+/-! ## The Loader is asked at most once per URI -/
+
+/-- the call log of a successful resolution has no duplicates -/
+theorem loader_at_most_once (env : Env) (fuel : Nat) (root : NodeId) (base : String) (rs : Resolved)
+    (h : Go.resolve env fuel root base = .ok rs) : rs.log.Nodup := by
+  obtain ⟨s, b, d, hs, _, hlog, _⟩ := resolve_ok env fuel root base rs h
+  rw [hlog]
+  exact ((resolveDoc_spec env fuel _ _ _ _ _ hs).2.2 (logOk_init.weaken _)).1
+
+/-- the same fact for resolver.resolve entered at any depth: from a state in which no URI was
+    loaded twice and every URI handed to the Loader — except the one whose document is being resolved —
+    is cached, a successful run ends in such a state, now without the exception -/
+theorem loader_discipline (env : Env) (fuel : Nat) (root : NodeId) (base : Uri.Url) (draft : Draft)
+    (s s' : RState) (h : resolveDoc env fuel root base draft s = .ok s')
+    (hs : s.log.Nodup ∧ ∀ k ∈ s.log, k = Uri.toString base ∨ (Json.lookup k s.loaded).isSome = true) :
+    s'.log.Nodup ∧ ∀ k ∈ s'.log, (Json.lookup k s'.loaded).isSome = true := by
+  have := (resolveDoc_spec env fuel _ _ _ _ _ h).2.2
+    ⟨hs.1, fun k hk => (hs.2 k hk).imp (fun e => by rw [e]) id⟩
+  exact ⟨this.1, fun k hk => (this.2 k hk).resolve_left (by simp)⟩
+
+/-- the log only grows (at its end) -/
+theorem log_prefix (env : Env) (fuel : Nat) (root : NodeId) (base : Uri.Url) (draft : Draft)
+    (s s' : RState) (h : resolveDoc env fuel root base draft s = .ok s') :
+    ∃ l, s'.log = s.log ++ l :=
+  (resolveDoc_spec env fuel _ _ _ _ _ h).1.1
+
+/-- `loaded` only grows: a cached URI is never dropped -/
+theorem loaded_monotone (env : Env) (fuel : Nat) (root : NodeId) (base : Uri.Url) (draft : Draft)
+    (s s' : RState) (h : resolveDoc env fuel root base draft s = .ok s') (k : String)
+    (hk : (Json.lookup k s.loaded).isSome = true) : (Json.lookup k s'.loaded).isSome = true :=
+  (resolveDoc_spec env fuel _ _ _ _ _ h).1.2 k hk
+
+/-- the document being resolved is cached under its base URI when resolver.resolve returns -/
+theorem loaded_after_resolve (env : Env) (fuel : Nat) (root : NodeId) (base : Uri.Url) (draft : Draft)
+    (s s' : RState) (h : resolveDoc env fuel root base draft s = .ok s') :
+    (Json.lookup (Uri.toString base) s'.loaded).isSome = true := by
+  cases fuel with
+  | zero => simp [resolveDoc] at h
+  | succ fuel => exact resolveDocStep_loaded env _ (resolveDoc_spec env fuel) _ _ _ _ _ h
+
+/-! ## Resolved references point into the store -/
+
+/-- one call of resolveRef: the schema it returns exists (JSON Pointer fragments: because a nil
+    `*Schema` at the end of the walk is an error; anchors: because only existing schemas are registered) -/
+theorem resolveRef_target_exists (env : Env) (fuel : Nat) (root : NodeId) (s : RState) (id : NodeId)
+    (ref : String) (o : RefOut) (s' : RState)
+    (hs : InfosOk env.st s.infos)
+    (h : resolveRef env (resolveDoc env fuel) root s id ref = .ok (o, s')) :
+    (env.st.get? o.target).isSome = true :=
+  ((resolveRef_spec env _ (resolveDoc_spec env fuel) _ _ _ _ _ _ h).2.1 hs).2
+
+/-- a successful resolution only records targets that exist in the store: `$ref`, `$dynamicRef`
+    and anchors -/
+theorem resolved_refs_exist_partial (env : Env) (fuel : Nat) (root : NodeId) (base : String) (rs : Resolved)
+    (h : Go.resolve env fuel root base = .ok rs) :
+    ∀ e ∈ rs.infos,
+      (∀ t, e.2.resolvedRef = some t → (env.st.get? t).isSome = true) ∧
+      (∀ t, e.2.resolvedDynamicRef = some t → (env.st.get? t).isSome = true) ∧
+      (∀ a ∈ e.2.anchors, (env.st.get? a.2.schema).isSome = true) := by
+  obtain ⟨s, b, d, hs, _, _, hinfos⟩ := resolve_ok env fuel root base rs h
+  have := (resolveDoc_spec env fuel _ _ _ _ _ hs).2.1 (infosOk_init env.st)
+  intro e he
+  rw [hinfos] at he
+  have := this e (List.mem_filter.mp he).1
+  exact ⟨this.2.1, this.2.2, this.1⟩
+
+/-! ## The hypotheses are satisfiable on non-trivial data
+
+`{"$id":"http://a/root.json","allOf":[{"$ref":"other.json#/$defs/x"},{"$ref":"other.json"}]}` with a
+Loader that serves `http://a/other.json` = `{"$defs":{"x":{"type":"string"}}}`: two references into
+the same remote document, one Loader call. -/
+
+def exStore : Store := #[
+  { id := "http://a/root.json", allOf := some [1, 2] },
+  { ref := "other.json#/$defs/x" },
+  { ref := "other.json" },
+  { defs := some [("x", 4)] },
+  { type := "string" } ]
+
+def exEnv : Env :=
+  { st := exStore, reOk := fun _ => true, loader := some [("http://a/other.json", .doc 3)] }
+
+example : ((Go.resolve exEnv 5 0 "").bind fun rs =>
+      .ok (rs.log, rs.infos.map fun e => (e.1, e.2.resolvedRef))) =
+    .ok (["http://a/other.json"], [(0, none), (1, some 4), (2, some 3), (3, none), (4, none)]) := by
+  decide +kernel
+
+/-- without a Loader the same resolution fails (and so says nothing) -/
+example : (Go.resolve { exEnv with loader := none } 5 0 "").isOk = false := by decide +kernel
+
+/-! ## `resolved_refs_exist` as first stated is false in the model
+
+Statement: every `$ref`-bearing schema in the table of a successful resolution has a recorded target.
+Counterexample: a Loader that returns the *same* document object for two URIs (the model's
+assumption "fresh nodes per loader document" is violated).  The second visit appends a second,
+never updated, info entry for schema 3.  What holds without that assumption is
+`resolved_refs_exist_partial` above (every recorded target exists); what is missing for the full
+statement is (a) an Env well-formedness hypothesis (distinct, disjoint loader documents) and
+(b) the fact that `allNodes` (traversal by `children`, sorted keys) visits exactly the schemas that
+`checkStructure` (traversal by `childEntries`) registered. -/
+
+def cxStore : Store := #[
+  { id := "http://a/root.json", allOf := some [1, 2] },
+  { ref := "x" },
+  { ref := "y" },
+  { ref := "#" } ]
+
+def cxEnv : Env :=
+  { st := cxStore, reOk := fun _ => true,
+    loader := some [("http://a/x", .doc 3), ("http://a/y", .doc 3)] }
+
+example : ((Go.resolve cxEnv 5 0 "").bind fun rs =>
+      .ok (rs.log, rs.infos.map fun e => (e.1, e.2.resolvedRef))) =
+    .ok (["http://a/x", "http://a/y"], [(0, none), (1, some 3), (2, some 3), (3, some 3), (3, none)]) := by
+  decide +kernel
+
+example : ¬ (∀ rs, Go.resolve cxEnv 5 0 "" = .ok rs →
+    ∀ id info n, (id, info) ∈ rs.infos → cxEnv.st.get? id = some n → n.ref ≠ "" →
+      ∃ t, info.resolvedRef = some t ∧ (cxEnv.st.get? t).isSome = true) := by
+  intro H
+  have hc : (match Go.resolve cxEnv 5 0 "" with
+      | .ok rs => rs.infos.any fun e => e.1 == 3 && e.2.resolvedRef.isNone
+      | _ => false) = true := by decide +kernel
+  cases hr : Go.resolve cxEnv 5 0 "" with
+  | ok rs =>
+    rw [hr] at hc
+    simp only [List.any_eq_true] at hc
+    obtain ⟨⟨id, info⟩, hmem, hp⟩ := hc
+    simp only [Bool.and_eq_true, beq_iff_eq, Option.isNone_iff_eq_none] at hp
+    obtain ⟨hid, hnone⟩ := hp
+    subst hid
+    obtain ⟨t, ht, _⟩ := H rs hr 3 info { ref := "#" } hmem rfl (by decide)
+    rw [hnone] at ht
+    exact absurd ht (by simp)
+  | fuel => rw [hr] at hc; exact absurd hc (by simp)
+  | panic => rw [hr] at hc; exact absurd hc (by simp)
+  | err => rw [hr] at hc; exact absurd hc (by simp)
+
+/-! ## Tests of the URL model against RFC 3986 §5.4 (reference resolution examples) -/
+
+section rfc3986_examples
+open Uri
+
+/-- §5.4.1 normal examples, base `http://a/b/c/d;p?q` -/
+example : resolveStr "http://a/b/c/d;p?q" "g:h" = .ok "g:h" := by decide +kernel
+example : resolveStr "http://a/b/c/d;p?q" "g" = .ok "http://a/b/c/g" := by decide +kernel
+example : resolveStr "http://a/b/c/d;p?q" "./g" = .ok "http://a/b/c/g" := by decide +kernel
+example : resolveStr "http://a/b/c/d;p?q" "g/" = .ok "http://a/b/c/g/" := by decide +kernel
+example : resolveStr "http://a/b/c/d;p?q" "/g" = .ok "http://a/g" := by decide +kernel
+example : resolveStr "http://a/b/c/d;p?q" "//g" = .ok "http://g" := by decide +kernel
+example : resolveStr "http://a/b/c/d;p?q" "?y" = .ok "http://a/b/c/d;p?y" := by decide +kernel
+example : resolveStr "http://a/b/c/d;p?q" "g?y" = .ok "http://a/b/c/g?y" := by decide +kernel
+example : resolveStr "http://a/b/c/d;p?q" "#s" = .ok "http://a/b/c/d;p?q#s" := by decide +kernel
+example : resolveStr "http://a/b/c/d;p?q" "g#s" = .ok "http://a/b/c/g#s" := by decide +kernel
+example : resolveStr "http://a/b/c/d;p?q" "g?y#s" = .ok "http://a/b/c/g?y#s" := by decide +kernel
+example : resolveStr "http://a/b/c/d;p?q" ";x" = .ok "http://a/b/c/;x" := by decide +kernel
+example : resolveStr "http://a/b/c/d;p?q" "g;x" = .ok "http://a/b/c/g;x" := by decide +kernel
+example : resolveStr "http://a/b/c/d;p?q" "g;x?y#s" = .ok "http://a/b/c/g;x?y#s" := by decide +kernel
+example : resolveStr "http://a/b/c/d;p?q" "" = .ok "http://a/b/c/d;p?q" := by decide +kernel
+example : resolveStr "http://a/b/c/d;p?q" "." = .ok "http://a/b/c/" := by decide +kernel
+example : resolveStr "http://a/b/c/d;p?q" "./" = .ok "http://a/b/c/" := by decide +kernel
+example : resolveStr "http://a/b/c/d;p?q" ".." = .ok "http://a/b/" := by decide +kernel
+example : resolveStr "http://a/b/c/d;p?q" "../" = .ok "http://a/b/" := by decide +kernel
+example : resolveStr "http://a/b/c/d;p?q" "../g" = .ok "http://a/b/g" := by decide +kernel
+example : resolveStr "http://a/b/c/d;p?q" "../.." = .ok "http://a/" := by decide +kernel
+example : resolveStr "http://a/b/c/d;p?q" "../../" = .ok "http://a/" := by decide +kernel
+example : resolveStr "http://a/b/c/d;p?q" "../../g" = .ok "http://a/g" := by decide +kernel
+
+/-- §5.4.2 abnormal examples -/
+example : resolveStr "http://a/b/c/d;p?q" "../../../g" = .ok "http://a/g" := by decide +kernel
+example : resolveStr "http://a/b/c/d;p?q" "../../../../g" = .ok "http://a/g" := by decide +kernel
+example : resolveStr "http://a/b/c/d;p?q" "/./g" = .ok "http://a/g" := by decide +kernel
+example : resolveStr "http://a/b/c/d;p?q" "/../g" = .ok "http://a/g" := by decide +kernel
+example : resolveStr "http://a/b/c/d;p?q" "g." = .ok "http://a/b/c/g." := by decide +kernel
+example : resolveStr "http://a/b/c/d;p?q" ".g" = .ok "http://a/b/c/.g" := by decide +kernel
+example : resolveStr "http://a/b/c/d;p?q" "g.." = .ok "http://a/b/c/g.." := by decide +kernel
+example : resolveStr "http://a/b/c/d;p?q" "..g" = .ok "http://a/b/c/..g" := by decide +kernel
+example : resolveStr "http://a/b/c/d;p?q" "./../g" = .ok "http://a/b/g" := by decide +kernel
+example : resolveStr "http://a/b/c/d;p?q" "./g/." = .ok "http://a/b/c/g/" := by decide +kernel
+example : resolveStr "http://a/b/c/d;p?q" "g/./h" = .ok "http://a/b/c/g/h" := by decide +kernel
+example : resolveStr "http://a/b/c/d;p?q" "g/../h" = .ok "http://a/b/c/h" := by decide +kernel
+example : resolveStr "http://a/b/c/d;p?q" "g;x=1/./y" = .ok "http://a/b/c/g;x=1/y" := by decide +kernel
+example : resolveStr "http://a/b/c/d;p?q" "g;x=1/../y" = .ok "http://a/b/c/y" := by decide +kernel
+example : resolveStr "http://a/b/c/d;p?q" "g?y/./x" = .ok "http://a/b/c/g?y/./x" := by decide +kernel
+example : resolveStr "http://a/b/c/d;p?q" "g?y/../x" = .ok "http://a/b/c/g?y/../x" := by decide +kernel
+example : resolveStr "http://a/b/c/d;p?q" "g#s/./x" = .ok "http://a/b/c/g#s/./x" := by decide +kernel
+example : resolveStr "http://a/b/c/d;p?q" "g#s/../x" = .ok "http://a/b/c/g#s/../x" := by decide +kernel
+/-- strict parsers keep the scheme-only reference -/
+example : resolveStr "http://a/b/c/d;p?q" "http:g" = .ok "http:g" := by decide +kernel
+
+end rfc3986_examples
 
 end JSV.C03
